@@ -146,6 +146,19 @@ CHECKS = {
         "Spectra with complex or nearly degenerate eigenvalues are outside the property (counted out of domain).",
         "DESIGN.md section 4 / C04",
     ),
+    "C05": (
+        "exploration",
+        "E1",
+        "grid enumeration of rate x width x time (incl. both numerical branches and the points straddling their switch) "
+        "against an independent log-space evaluation cross-validated by quadrature; differential per-index binding for "
+        "all shift / dispersion configurations",
+        "The closed form of the real kernel is compared on every grid point with a reference that does not use erf/erfcx; "
+        "through the megacomplexes every multi-Gaussian broadcasting/scale/normalise pattern is checked, and for every "
+        "enumerated shifted/dispersed IRF the matrix at each global index must equal the plain-IRF matrix at that index's "
+        "reference effective centre and width.",
+        "Finite grids; backsweep stays disabled.",
+        "DESIGN.md section 4 / C05",
+    ),
 }
 
 PENDING_REASON = "check under construction in this round - not claimed until its check runs clean on the unchanged tree"
@@ -186,7 +199,7 @@ def main():
             "add_only": True,
         },
         "engines": [
-            {"name": "E1", "path": "vf/core.py", "serves_properties": ["C01", "C02", "C03", "C04", "C08", "C09", "C11", "C13"], "kind_free_text": "bounded exhaustive input-space enumeration with reference oracles, 16 workers"},
+            {"name": "E1", "path": "vf/core.py", "serves_properties": ["C01", "C02", "C03", "C04", "C05", "C08", "C09", "C11", "C13"], "kind_free_text": "bounded exhaustive input-space enumeration with reference oracles, 16 workers"},
             {"name": "E2", "path": "vf/explore.py", "serves_properties": ["C10", "C12", "C19"], "kind_free_text": "explicit-state BFS over event histories replayed on fresh real objects, full-state digests"},
             {"name": "E3", "path": "vf/checks/c15.py", "serves_properties": ["C15"], "kind_free_text": "deviation-bounded fault enumerator (all single / pairs of deviations from the fault-free environment), forked watchdog"},
             {"name": "E5", "path": "vf/prange.py", "serves_properties": ["C10"], "kind_free_text": "partial-order (conflict relation) exploration of numba prange kernels on py_func with recording array proxies"},
